@@ -698,3 +698,53 @@ def det_run(tier, seed, defs):
     samples = events[:3]
     return {"events": len(events), "keys": len({(e["def"], e["cfg"]) for e in events}), "threads": threads, "processes": procs, "findings": findings, "samples": samples,
             "definitions": len(defs), "wall": time.time() - t0}
+
+
+# ------------------------------------------------------------------------------------------
+# RegexAgree: textbook semantics (Regex.tla Matches) vs the real lexer
+
+def regex_agree_run(tier, seed):
+    import corpus
+    from pipeline import build_subjects, capture, run_subject
+    t0 = time.time()
+    res = run_tlc("Regex.tla", "Regex.cfg", {"DEPTH": "2"}, workers=8, metaname="regexagree")
+    if not res["ok"]:
+        raise ToolError("Regex.tla violated at specification level:\n" + res["out"][-2000:])
+    rng = random.Random(seed + 23)
+    cands = {}
+    for tag, sub, a in tlc_records(res, only="AST"):
+        if not a["lp"] or a["nullable"]:
+            continue
+        text = render_ast(a["r"])
+        if text not in cands:
+            cands[text] = a
+    texts = sorted(cands)
+    n = 250 if tier == "quick" else 2500
+    small = [t for t in texts if len(t) <= 6]
+    pick = small[:100] + rng.sample(texts, min(n, len(texts)))
+    pick = sorted(set(pick))
+    defs = [corpus.mk("ra%d" % k, [corpus.rx(t, greedy=True)]) for k, t in enumerate(pick)]
+    defs_path, metas, _ = capture(defs, "regexagree")
+    bins = build_subjects(metas, ["tc"], "regexagree")
+    ch = {"a": b"a", "b": b"b", "e": "é".encode()}
+    reqs = []
+    for m, t in zip(metas, pick):
+        if not m["accepted"]:
+            continue
+        for w, lp in cands[t]["lp"]:
+            data = b"".join(ch[c] for c in w)
+            exp_end = len(b"".join(ch[c] for c in w[:lp]))
+            reqs.append(("%d f1 %s" % (m["idx"], data.hex()), m, t, "".join(w), exp_end))
+    findings = []
+    reps = run_subject(bins["tc"], [r[0] for r in reqs], timeout=1800)
+    for (line, m, t, w, exp_end), rep in zip(reqs, reps):
+        items = rep.get("items")
+        if items is None:
+            findings.append({"key": "regexagree:%s:%s" % (t, w), "what": "crash on pattern %r word %r: %s" % (t, w, rep), "definition": m["src"]})
+            continue
+        got_end = items[0][3] if items and items[0][0] == "ok" else 0
+        if got_end != exp_end:
+            findings.append({"key": "regexagree:%s:%s" % (t, w), "what": "pattern %r on %r: textbook semantics match the first %d bytes, the lexer matched %d" % (t, w.replace("e", "é"), exp_end, got_end),
+                             "definition": m["src"], "input_hex": line.split()[-1]})
+    return {"patterns": len(pick), "accepted": sum(1 for m in metas if m["accepted"]), "words": len(reqs), "findings": findings, "states": res["distinct"], "wall": time.time() - t0,
+            "samples": [{"pattern": r[2], "word": r[3], "expected_match_bytes": r[4]} for r in reqs[:: max(1, len(reqs) // 4)][:4]]}
